@@ -53,7 +53,7 @@ Init == \E i \in 1..Len(Programs) : InitSem(i, <<>>, FALSE)
 Next == SemNext
 EmitInv == (EmitOn /\ Final) =>
    Emit([fam |-> "print", cls |-> Cases[pid].c, key |-> Cases[pid].key, pid |-> pid,
-         toks |-> Compact(Yield(MinParen(P))), stdin |-> stdin, repl |-> repl,
+         toks |-> Compact(Yield(MinParen(P))), tree |-> P, stdin |-> stdin, repl |-> repl,
          status |-> status, why |-> why, out |-> out, diags |-> diags, natlog |-> natlog, steps |-> steps])
 (* the text of a number reads back as the number: ParseLit(NumText(x)) = x for every finite non-negative pool value *)
 AllDone == Final => status \in {"done", "unspec"}
